@@ -117,13 +117,27 @@ func storeOp(r *rand.Rand) MsgSpec {
 		{"BigGrow", func() []string { return []string{n(30)} }},
 		{"BigShrink", func() []string { return []string{n(40)} }},
 		{"Rename", func() []string { return []string{"nm" + t()} }},
+		{"SlotPut", func() []string { return []string{n(3), t()} }},
+		{"SlotPut", func() []string { return []string{n(3), t()} }},
+		{"SlotSwap", func() []string { return []string{n(3), n(3)} }},
+		{"SlotRehome", func() []string { return []string{n(3), n(3)} }},
+		{"SlotDrop", func() []string { return []string{n(3)} }},
 	}
 	o := pick(r, ops)
 	return MsgSpec{Kind: "call", Pkg: StorePath, Func: o.f, Args: o.args()}
 }
 
 func peerOp(r *rand.Rand) MsgSpec {
-	switch r.IntN(8) {
+	switch r.IntN(12) {
+	case 8, 9:
+		return MsgSpec{Kind: "call", Pkg: PeerPath, Func: "Hold", Args: []string{pick(r, tags)}}
+	case 10:
+		return MsgSpec{Kind: "call", Pkg: PeerPath, Func: "Release"}
+	case 11:
+		if r.IntN(3) == 0 {
+			return MsgSpec{Kind: "call", Pkg: PeerPath, Func: "ReleaseAll"}
+		}
+		return MsgSpec{Kind: "call", Pkg: PeerPath, Func: "Release"}
 	case 0, 1:
 		return MsgSpec{Kind: "call", Pkg: PeerPath, Func: "Relay", Args: []string{pick(r, tags)}}
 	case 2:
@@ -156,11 +170,62 @@ func cfgOp(r *rand.Rand) MsgSpec {
 	}
 }
 
+// moveScript is one MsgRun with 2-6 crossing calls that only move, drop or
+// create persisted objects (each call is its own realm finalization inside
+// one message, so marks set in one finalization are seen by the next).
+func moveScript(r *rand.Rand) MsgSpec {
+	var b strings.Builder
+	b.WriteString("package main\n\nimport (\n\t\"gno.land/r/verif/store\"\n\t\"gno.land/r/verif/peer\"\n)\n\nfunc main(cur realm) {\n")
+	n := 2 + r.IntN(5)
+	for i := 0; i < n; i++ {
+		switch r.IntN(16) {
+		case 0, 1:
+			fmt.Fprintf(&b, "\tprintln(store.SlotPut(cross(cur), %d, %q))\n", r.IntN(3), pick(r, tags))
+		case 2, 3, 4:
+			fmt.Fprintf(&b, "\tprintln(store.SlotSwap(cross(cur), %d, %d))\n", r.IntN(3), r.IntN(3))
+		case 5, 6:
+			fmt.Fprintf(&b, "\tprintln(store.SlotRehome(cross(cur), %d, %d))\n", r.IntN(3), r.IntN(3))
+		case 7, 8, 9:
+			fmt.Fprintf(&b, "\tprintln(store.SlotDrop(cross(cur), %d))\n", r.IntN(3))
+		case 10:
+			b.WriteString("\tprintln(store.Detach(cross(cur)))\n")
+		case 11:
+			b.WriteString("\tprintln(store.Reattach(cross(cur)))\n")
+		case 12:
+			b.WriteString("\tprintln(store.DropDetached(cross(cur)))\n")
+		case 13:
+			fmt.Fprintf(&b, "\tprintln(store.Push(cross(cur), %q))\n", pick(r, tags))
+		case 14:
+			fmt.Fprintf(&b, "\tprintln(peer.Hold(cross(cur), %q))\n", pick(r, tags))
+		case 15:
+			b.WriteString("\tprintln(peer.Release(cross(cur)))\n")
+		}
+	}
+	b.WriteString("\tprintln(len(store.Dump()), peer.Dump())\n}\n")
+	return MsgSpec{Kind: "run", Body: b.String()}
+}
+
 func runScript(r *rand.Rand) MsgSpec {
 	var b strings.Builder
 	b.WriteString("package main\n\nimport (\n\t\"gno.land/r/verif/store\"\n\t\"gno.land/r/verif/peer\"\n)\n\nfunc main(cur realm) {\n")
 	n := 1 + r.IntN(5)
+	slotScript := r.IntN(3) == 0 // several slot moves in one message: one realm finalization per call
 	for i := 0; i < n; i++ {
+		if slotScript {
+			switch r.IntN(5) {
+			case 0:
+				fmt.Fprintf(&b, "\tprintln(store.SlotPut(cross(cur), %d, %q))\n", r.IntN(3), pick(r, tags))
+			case 1:
+				fmt.Fprintf(&b, "\tprintln(store.SlotSwap(cross(cur), %d, %d))\n", r.IntN(3), r.IntN(3))
+			case 2:
+				fmt.Fprintf(&b, "\tprintln(store.SlotRehome(cross(cur), %d, %d))\n", r.IntN(3), r.IntN(3))
+			case 3:
+				fmt.Fprintf(&b, "\tprintln(store.SlotDrop(cross(cur), %d))\n", r.IntN(3))
+			case 4:
+				fmt.Fprintf(&b, "\tprintln(peer.Hold(cross(cur), %q), peer.Release(cross(cur)))\n", pick(r, tags))
+			}
+			continue
+		}
 		switch r.IntN(6) {
 		case 0:
 			fmt.Fprintf(&b, "\tprintln(store.Push(cross(cur), %q))\n", pick(r, tags))
@@ -202,6 +267,10 @@ type Profile struct {
 	// FailBoost multiplies the share of failing transactions (panics, message
 	// errors, out-of-gas cut points, deposit failures, bad signatures).
 	FailBoost bool
+	// MoveBoost makes 40% of the transactions one message with several
+	// crossing calls (one realm finalization each) that move persisted objects
+	// between holders, drop and re-create them.
+	MoveBoost bool
 }
 
 // Gen produces a random history of nBlocks blocks.
@@ -266,6 +335,10 @@ func GenP(r *rand.Rand, seed uint64, nBlocks, maxTxs int, prof Profile) *History
 		for i := 0; i < ntx; i++ {
 			if prof.FailBoost && r.IntN(100) < 45 {
 				blk = append(blk, failTx(r))
+				continue
+			}
+			if prof.MoveBoost && r.IntN(100) < 40 {
+				blk = append(blk, TxSpec{Signer: pick(r, Users), Gas: 150_000_000, Fee: 1_000_000, Msgs: []MsgSpec{moveScript(r)}, Label: "move-script"})
 				continue
 			}
 			tx := TxSpec{Signer: pick(r, Users), Gas: 60_000_000, Fee: 1_000_000}
@@ -469,3 +542,50 @@ func StoreOp(r *rand.Rand) MsgSpec { return storeOp(r) }
 
 // PeerOp returns a random call on the peer realm.
 func PeerOp(r *rand.Rand) MsgSpec { return peerOp(r) }
+
+// slotAlphabet is the set of crossing calls that move objects between two slots.
+var slotAlphabet = []string{
+	"SlotSwap(cross(cur), 0, 1)", "SlotSwap(cross(cur), 1, 0)",
+	"SlotRehome(cross(cur), 0, 1)", "SlotRehome(cross(cur), 1, 0)", "SlotRehome(cross(cur), 0, 0)",
+	"SlotDrop(cross(cur), 0)", "SlotDrop(cross(cur), 1)",
+	"SlotPut(cross(cur), 0, \"n\")", "SlotPut(cross(cur), 1, \"n\")",
+}
+
+// SlotSeqHistories enumerates every sequence of exactly seqLen slot moves
+// executed as ONE message (each call finalizes the realm once) from each of
+// the four nil/non-nil start states of two slots, spread over parts
+// histories. Every history alternates a SlotReset block (which persists the
+// start state) and the message under test, one tx per block.
+func SlotSeqHistories(seqLen, parts int) []*History {
+	hs := make([]*History, parts)
+	for i := range hs {
+		hs[i] = &History{Seed: uint64(900000 + seqLen*100 + i)}
+	}
+	total := 1
+	for i := 0; i < seqLen; i++ {
+		total *= len(slotAlphabet)
+	}
+	k := 0
+	for mask := 0; mask < 4; mask++ {
+		for n := 0; n < total; n++ {
+			var b strings.Builder
+			b.WriteString("package main\n\nimport \"gno.land/r/verif/store\"\n\nfunc main(cur realm) {\n")
+			x := n
+			label := fmt.Sprintf("slot-seq:mask%d", mask)
+			for j := 0; j < seqLen; j++ {
+				op := slotAlphabet[x%len(slotAlphabet)]
+				x /= len(slotAlphabet)
+				fmt.Fprintf(&b, "\tprintln(store.%s)\n", op)
+				label += ":" + strings.Split(op, "(")[0] + strings.NewReplacer("cross(cur), ", "", "\"", "").Replace(op[strings.Index(op, "("):])
+			}
+			b.WriteString("}\n")
+			h := hs[k%parts]
+			k++
+			h.Blocks = append(h.Blocks,
+				[]TxSpec{{Signer: "alice", Gas: 60_000_000, Fee: 1_000_000, Label: "slot-reset", Msgs: []MsgSpec{{Kind: "call", Pkg: StorePath, Func: "SlotReset", Args: []string{itoa(mask)}}}}},
+				[]TxSpec{{Signer: "alice", Gas: 150_000_000, Fee: 1_000_000, Label: label, Msgs: []MsgSpec{{Kind: "run", Body: b.String()}}}},
+			)
+		}
+	}
+	return hs
+}
